@@ -71,4 +71,15 @@ Redecl == { [t |-> "arr", ty |-> "int", x |-> "A", shape |-> <<>>, rows |-> << <
             [t |-> "arr", ty |-> "float", x |-> "A", shape |-> <<>>, rows |-> << <<F(1, 2)>>, <<F(3, 2)>>, <<F(5, 2)>> >>],
             Stmt("G", TRUE, <<[t |-> "idx", x |-> "A", e |-> I(1)]>>, <<>>, <<I(0)>>, "none"),
             Stmt("H", TRUE, <<[t |-> "idx", x |-> "A", e |-> I(2)]>>, <<Kw("k", [t |-> "idx", x |-> "A", e |-> I(0)])>>, <<I(1)>>, "none") }
+\* arrays that consist of template parameters only (two distinct ones), some of which were already used earlier in the script
+\* (in a gate argument, in a scalar declaration), with and without a declared shape; readers afterwards
+PP(p) == [t |-> "par", p |-> p]
+ParOnly == { Stmt("R", TRUE, <<PP("c")>>, <<>>, <<I(0)>>, "none"),
+             [t |-> "var", ty |-> "float", x |-> "pv", e |-> PP("d")],
+             [t |-> "arr", ty |-> "float", x |-> "A", shape |-> <<1, 2>>, rows |-> << <<PP("c"), PP("d")>> >>],
+             [t |-> "arr", ty |-> "float", x |-> "A", shape |-> <<>>, rows |-> << <<PP("c"), PP("d")>> >>],
+             [t |-> "arr", ty |-> "complex", x |-> "A", shape |-> <<2, 2>>, rows |-> << <<PP("c"), PP("d")>>, <<PP("d"), PP("c")>> >>],
+             [t |-> "arr", ty |-> "float", x |-> "A", shape |-> <<>>, rows |-> << <<PP("d"), PP("c"), PP("d")>> >>],
+             [t |-> "arr", ty |-> "float", x |-> "A", shape |-> <<>>, rows |-> << <<PP("d")>>, <<PP("e")>> >>],
+             Stmt("H", TRUE, <<[t |-> "idx", x |-> "A", e |-> I(0)]>>, <<Kw("k", [t |-> "idx", x |-> "A", e |-> I(1)])>>, <<I(1)>>, "none") }
 =============================================================================
